@@ -9,6 +9,8 @@ len <= capacity, aliases bound to the current _queue, _wlock is a Lock.
 """
 from __future__ import annotations
 
+import time
+
 import z3
 
 from pyvc.contract import VC, Res, FnTask
@@ -133,6 +135,25 @@ class LRU(VC):
     def __init__(self):
         self.target = f"jinja2.utils:LRUCache.{self.method}"
         super().__init__("C26", f"C26.LRUCache.{self.method}")
+        if self.method != "__setstate__":
+            # frame clause the reduction of the concurrent statement rests on (added after seed C26_SEED_4)
+            self.posts = list(self.posts) + [("same_lock_and_containers", LRU.p_same_objects)]
+
+    def p_same_objects(self, pre_st, out):
+        """An operation on an existing cache keeps ITS lock, mapping and queue objects and the four bound-method aliases:
+        the lock discipline only excludes other threads if every operation, for the whole life of the cache, takes the one
+        lock and works on the one pair of containers (a thread may be waiting on the lock, or about to call an alias,
+        while this operation runs).  Only __init__ / __setstate__ (object creation) may bind them."""
+        p = self.pre
+        h = out.st.get(p.ref)
+        f = h.fields
+        if not (f.get("_wlock") == p.lock and f.get("_mapping") == p.m and f.get("_queue") == p.q):
+            return False
+        for nm, meth in (("_popleft", "popleft"), ("_pop", "pop"), ("_remove", "remove"), ("_append", "append")):
+            b = f.get(nm)
+            if not (isinstance(b, BoundMethod) and b.recv == p.q and b.name == meth):
+                return False
+        return True
 
     def configure(self, I):
         I.inline.update({"jinja2.utils:LRUCache.__getitem__", "jinja2.utils:LRUCache.__setitem__", "jinja2.utils:LRUCache.items",
@@ -188,6 +209,7 @@ def replay_history(w):
                     c = c.copy()
                 if n == 4 and how == "pickle":
                     c = pickle.loads(pickle.dumps(c))
+                ids = (c._wlock, c._mapping, c._queue)
                 try:
                     if op == "set":
                         c[k] = k * 10
@@ -219,6 +241,10 @@ def replay_history(w):
                     return (True, f"{how} cap={cap} after op#{n} {op}({k}): real=({list(c._queue)},{dict(c._mapping)}) reference=({order},{val})")
                 if not isinstance(c._wlock, type(threading.Lock())):
                     return (True, "_wlock is not a lock")
+                now = (c._wlock, c._mapping, c._queue)
+                if any(a is not b for a, b in zip(ids, now)) or c._append.__self__ is not c._queue or c._popleft.__self__ is not c._queue:
+                    return (True, f"{how} cap={cap} op#{n} {op}({k}) replaced the cache's lock / mapping / queue object (or left an alias on the old queue): "
+                                  "a thread waiting on the old lock, or calling an alias, no longer excludes / sees this cache's operations")
     return (False, "fixed histories agree with the reference map (the failed obligation is structural: see verifier output)")
 
 
@@ -854,8 +880,125 @@ def table_aliases(task, tier, seed):
     return rs
 
 
+# ---------------------------------------------------------------------------------------------------------------------
+# Bounded cross-check of the proof (never counted as proved; the VCs above decide the property): every history of public
+# operations up to a length, run on the real class against the reference LRU map of Appendix A.4.  It guards the
+# verifier itself (a wrong dependency spec for deque / dict would show here) and is the exploration of the thorough tier.
+
+HIST_OPS = ([("set", k) for k in (1, 2, 3)] + [("get", k) for k in (1, 2, 3)] + [("getitem", 1), ("setdefault", 2), ("setdefault", 3),
+            ("del", 1), ("del", 2), ("contains", 3), ("copy", 0), ("pickle", 0), ("clear", 0), ("setstate", 0)])
+
+
+def run_history(cap, ops):
+    """-> None or a description of the first divergence from the reference map"""
+    import pickle
+    c = U.LRUCache(cap)
+    order, val = [], {}
+
+    def touch(k):
+        order.remove(k)
+        order.append(k)
+
+    def put(k, v):
+        if k in val:
+            order.remove(k)
+        elif len(order) == cap:
+            del val[order.pop(0)]
+        order.append(k)
+        val[k] = v
+
+    for n, (op, k) in enumerate(ops):
+        want = got = None
+        try:
+            if op == "set":
+                c[k] = (k, n)
+                put(k, (k, n))
+            elif op == "get":
+                got = c.get(k, "dflt")
+                want = val.get(k, "dflt")
+                if k in val:
+                    touch(k)
+            elif op == "getitem":
+                try:
+                    got = c[k]
+                except KeyError:
+                    got = "KeyError"
+                want = val.get(k, "KeyError")
+                if k in val:
+                    touch(k)
+            elif op == "setdefault":
+                got = c.setdefault(k, ("d", n))
+                if k in val:
+                    want = val[k]
+                    touch(k)
+                else:
+                    want = ("d", n)
+                    put(k, want)
+            elif op == "del":
+                try:
+                    del c[k]
+                    got = "ok"
+                except KeyError:
+                    got = "KeyError"
+                want = "ok" if k in val else "KeyError"
+                if k in val:
+                    order.remove(k)
+                    del val[k]
+            elif op == "contains":
+                got, want = k in c, k in val
+            elif op == "copy":
+                c = c.copy()
+            elif op == "pickle":
+                c = pickle.loads(pickle.dumps(c))
+            elif op == "setstate":
+                d = c.__getstate__()
+                c = U.LRUCache.__new__(U.LRUCache)
+                c.__setstate__(d)
+            else:
+                c.clear()
+                order, val = [], {}
+        except Exception as ex:
+            return f"op#{n} {op}({k}) raised {type(ex).__name__}: {ex}"
+        if got != want:
+            return f"op#{n} {op}({k}) returned {got!r}, reference {want!r}"
+        view = (list(c._queue), dict(c._mapping), len(c), list(c.keys()), list(c.values()), list(c.items()), list(reversed(c)), list(c), c.capacity)
+        ref = (order, val, len(order), order[::-1], [val[x] for x in order[::-1]], [(x, val[x]) for x in order[::-1]], list(order), order[::-1], cap)
+        if view != ref:
+            return f"after op#{n} {op}({k}): real view {view!r}, reference {ref!r}"
+    return None
+
+
+def bounded_histories(task, tier, seed):
+    import itertools
+    t0 = time.time()
+    depth = 3 if tier == "quick" else 5
+    n = 0
+    for cap in (1, 2, 3):
+        for L_ in range(1, depth + 1):
+            for ops in itertools.product(HIST_OPS, repeat=L_):
+                n += 1
+                r = run_history(cap, ops)
+                if r:
+                    return [Res(f"{task.name}.diverges", "refuted", "bounded", time.time() - t0, f"capacity {cap}, history {ops!r}: {r}", "bounded",
+                                {"method": "bounded_history", "capacity": cap, "ops": [list(o) for o in ops]})]
+    task.stats = {"cases": n}
+    return [Res(f"{task.name}.all", "bounded-ok", "bounded", time.time() - t0, f"{n} histories agree with the reference LRU map", "bounded")]
+
+
+def replay_bounded_history(w):
+    if w.get("method") != "bounded_history":
+        return replay_lru(w)
+    r = run_history(w["capacity"], [tuple(o) for o in w["ops"]])
+    return (bool(r), r or "history agrees with the reference LRU map")
+
+
+histories = FnTask("C26", "C26.bounded.histories", bounded_histories, "bounded", replay_bounded_history)
+histories.bound_text = ("cross-check of the proof, not a deciding step: all histories of length <= 3 (thorough 5) over 16 operations (set/get/getitem/"
+                        "setdefault/del/contains on keys 1..3, copy, pickle round trip, __setstate__, clear), capacities 1..3, on the real LRUCache vs "
+                        "the reference map: results, queue, mapping, len, keys/values/items/reversed/iter order after every step")
+
 TASKS = [GetItem(), SetItem(), DelItem(), Get(), SetDefault(), Contains(), Len(), Clear(), Items(), Values(), Keys(),
-         Iter(), Reversed(), Copy(), SetState(), Init(), FnTask("C26", "C26.LRUCache.tables", table_aliases, "table", replay_lru)]
+         Iter(), Reversed(), Copy(), SetState(), Init(), FnTask("C26", "C26.LRUCache.tables", table_aliases, "table", replay_lru), histories]
 
 META = {
     "level": "proof",
